@@ -109,7 +109,7 @@ fn expected_start_json(sj: &Sjis, b: &[u8]) -> Option<Value> {
 		m.insert("scene".into(), json!({"minor": b[so::SCENE_MINOR], "major": b[so::SCENE_MAJOR]}));
 	}
 	if n >= 701 {
-		m.insert("language".into(), json!(if b[so::LANGUAGE] == 0 { "Japanese" } else { "English" }));
+		m.insert("language".into(), json!(match b[so::LANGUAGE] { 0 => "Japanese", 1 => "English", _ => "<invalid>" }));
 	}
 	if n >= 760 {
 		m.insert("match".into(), json!({"id": cstr(&b[so::MATCH_ID..so::MATCH_ID + 51], 50)?, "game": u32_at(b, so::GAME_NUMBER), "tiebreaker": u32_at(b, so::TIEBREAKER)}));
@@ -131,14 +131,16 @@ fn expected_end_json(b: &[u8]) -> Value {
 		}),
 	);
 	if b.len() >= 2 {
-		m.insert("lras_initiator".into(), if b[1] == 255 { Value::Null } else { json!(PORT_NAMES[(b[1] & 3) as usize]) });
+		m.insert("lras_initiator".into(), if b[1] == 255 { Value::Null } else if b[1] < 4 { json!(PORT_NAMES[b[1] as usize]) } else { json!("<invalid>") });
 	}
 	if b.len() >= 6 {
 		let mut ps = vec![];
 		for p in 0..4 {
 			let pl = b[2 + p] as i8;
-			if pl >= 0 {
+			if (0..=3).contains(&pl) {
 				ps.push(json!({"port": PORT_NAMES[p], "placement": pl}));
+			} else if pl != -1 {
+				ps.push(json!({"port": PORT_NAMES[p], "placement": "<invalid>"}));
 			}
 		}
 		m.insert("players".into(), Value::Array(ps));
@@ -206,7 +208,7 @@ impl Monitor for C05 {
 		"C05"
 	}
 	fn rule(&self) -> String {
-		"Game Start payloads of each of the 10 length classes (320/352/416/417/418/420/584/700/701/760 bytes) are filled with random bytes (validated enum-like bytes - UCF toggles, language, name fields valid Shift-JIS, UID/match id valid UTF-8 - drawn from their valid sets, NUL-terminated strings with garbage after the NUL) x player-type byte of each of the 4 ports from {human, CPU, demo, 3, other} (quick: seeded random patterns; thorough: all 5^4 patterns per class) x teams on/off x random version inside the class's version range; Game End payloads of the 3 classes x method x LRAS {255,0..3} x placements {-1..3}. Each is embedded in a complete replay and read with slippi::read. Oracle = values at the hand-transcribed spec offsets: every struct field (floats by bit pattern), optionals present iff the block is long enough, players exactly the ports with type 0/1/2 in port order, team/cpu_level gating, strings up to the first NUL, raw block retained; and the JSON rendering (serde's text output parsed back with the harness's own JSON parser; floats compared as f32) equal to the oracle's document, with version-gated keys omitted. distinct = (length class, type pattern class, teams, end class) classes.".into()
+		"Game Start payloads of each of the 10 length classes (320/352/416/417/418/420/584/700/701/760 bytes) are filled with random bytes (validated enum-like bytes - UCF toggles, language, name fields valid Shift-JIS, UID/match id valid UTF-8 - drawn from their valid sets, NUL-terminated strings with garbage after the NUL; every 9th block instead carries ONE value outside the valid set in such a byte, which must be rejected or exposed faithfully - never decoded as a different value) x player-type byte of each of the 4 ports from {human, CPU, demo, 3, other} (quick: seeded random patterns; thorough: all 5^4 patterns per class) x teams on/off x random version inside the class's version range; Game End payloads of the 3 classes x method x LRAS {255,0..3} x placements {-1..3}. Each is embedded in a complete replay and read with slippi::read. Oracle = values at the hand-transcribed spec offsets: every struct field (floats by bit pattern), optionals present iff the block is long enough, players exactly the ports with type 0/1/2 in port order, team/cpu_level gating, strings up to the first NUL, raw block retained; and the JSON rendering (serde's text output parsed back with the harness's own JSON parser; floats compared as f32) equal to the oracle's document, with version-gated keys omitted. distinct = (length class, type pattern class, teams, end class) classes.".into()
 	}
 	fn assumptions(&self) -> Vec<String> {
 		vec!["spec.rs Game Start/End offsets are the oracle".into(), "bytes the reader validates are drawn from their valid sets (rejecting other values is correct and exercised by C06)".into()]
@@ -274,11 +276,45 @@ impl Monitor for C05 {
 			}
 			st[so::MATCH_ID + 50] = 0;
 		}
+		// every 9th case plants ONE value outside the valid set in a byte the reader validates
+		// (UCF toggle, language, end method, LRAS initiator, placement): the reader must either
+		// reject the file or expose exactly that value - it must not decode it as something else
+		let mut planted: Option<String> = None;
+		if idx % 9 == 4 {
+			match rng.below(2) {
+				0 if len >= 352 => {
+					let p = rng.below(4);
+					let v = *rng.pick(&[3u32, 4, 255, 256, 0x8000_0001, u32::MAX]);
+					let o = so::UCF + 8 * p + 4 * rng.below(2);
+					st[o..o + 4].copy_from_slice(&v.to_be_bytes());
+					planted = Some(format!("UCF word of port {} = {:#x}", p, v));
+				}
+				0 if len >= 701 => {
+					st[so::LANGUAGE] = *rng.pick(&[2u8, 3, 0x7f, 0x80, 0xff]);
+					planted = Some(format!("language byte = {:#x}", st[so::LANGUAGE]));
+				}
+				_ => {}
+			}
+		}
 		s.start_override = Some(st.clone());
 		s.ends = 1;
 		let mut end = gen::end_block(v, 0, &mut rng);
 		if idx % 7 == 0 {
 			end[0] = [0u8, 1, 2, 3, 7][(idx / 7) % 5];
+		}
+		if idx % 9 == 4 && planted.is_none() {
+			let which = rng.below(3);
+			if which == 0 {
+				end[0] = *rng.pick(&[4u8, 5, 6, 8, 0x7f, 0x80, 0xfe, 0xff]);
+				planted = Some(format!("end method byte = {:#x}", end[0]));
+			} else if which == 1 && end.len() >= 2 {
+				end[1] = *rng.pick(&[4u8, 5, 0x7f, 0x80, 0x81, 0xc0, 0xfe]);
+				planted = Some(format!("LRAS byte = {:#x}", end[1]));
+			} else if end.len() >= 6 {
+				let k = 2 + rng.below(4);
+				end[k] = *rng.pick(&[4u8, 5, 0x7f, 0x80, 0xfe]);
+				planted = Some(format!("placement byte {} = {:#x}", k - 2, end[k]));
+			}
 		}
 		s.end_override = Some(end.clone());
 		s.metadata = None;
@@ -291,11 +327,24 @@ impl Monitor for C05 {
 		let desc = format!("v{}.{}.{} start block of {} bytes, types {}, teams {}, end {:02x?}", v.0, v.1, patch, len, tclass, teams, end);
 		let game = match common::slp_read(&built.bytes, false, false) {
 			Ok(g) => g,
+			Err(common::Fail::Err(_)) if planted.is_some() => {
+				// rejecting a value outside the valid set is correct
+				out.count("invalid_value_rejected", 1);
+				out.class("planted-invalid-value|rejected".to_string());
+				return out;
+			}
 			Err(f) => {
 				out.violate(format!("read-failed;{}", f.sig()), format!("{}: {}", desc, f.text()), Some(&built.bytes));
 				return out;
 			}
 		};
+		if let Some(pl) = &planted {
+			// accepted: then every field must still equal the oracle's rendering, which shows the
+			// planted value as "<invalid>" - i.e. acceptance is only right if the reader has a way to
+			// expose the value faithfully
+			out.class("planted-invalid-value|accepted".to_string());
+			out.observe("planted_values_accepted", pl.clone());
+		}
 		// struct-level checks that JSON cannot express: raw retention, float bits
 		if game.start.bytes.0 != st {
 			out.violate("start-raw-not-retained", format!("{}: start.bytes differs from the raw block", desc), Some(&built.bytes));
